@@ -40,3 +40,6 @@ def check(A):
         S.ping_task_rules(A, fl, 'C10')
         S.ping_timeout_rules(A, fl, 'C10')
     R.jsonp_rule(A, 'C10')
+    R.driver_fifo_rule(A, 'C10')
+    for cf in C.CFLAVOURS:
+        C.connect_polling_rules(A, cf, 'C10')
